@@ -26,14 +26,35 @@ pub struct Obs {
 /// `tick` succeeds this many times (TickLimit of the specification; `--tick N`).
 pub static TICK_LIMIT: std::sync::atomic::AtomicI64 = std::sync::atomic::AtomicI64::new(2);
 
+/// No terminating program of the specification records anywhere near this
+/// many observations: a run that does is abandoned (outcome "panic": data).
+const EVENT_CAP: usize = 20_000;
+
+fn record(env: &mut VEnv, m: String) {
+    let n = yvcommon::shell::EVENTS.with(|e| e.borrow().len());
+    if n >= EVENT_CAP {
+        panic!("observation limit exceeded (the program does not terminate?)");
+    }
+    let pid = env.system.getpid().0;
+    push_event(serde_json::json!({"ev": "probe", "pid": pid, "args": [m], "st": env.exit_status.0}));
+}
+
 /// `mk M N`: records <<M, $?>> and returns N.
 fn mk_main(env: &mut VEnv, args: Vec<Field>) -> Pin<Box<dyn Future<Output = BResult> + '_>> {
     Box::pin(async move {
         let m = args.first().map(|f| f.value.clone()).unwrap_or_default();
         let n = args.get(1).and_then(|f| f.value.parse::<i32>().ok()).unwrap_or(0);
-        let pid = env.system.getpid().0;
-        push_event(serde_json::json!({"ev": "probe", "pid": pid, "args": [m], "st": env.exit_status.0}));
+        record(env, m);
         BResult::new(ExitStatus(n))
+    })
+}
+
+/// `probe M`: records <<M, $?>> and leaves $? unchanged (as yvcommon's, with the limit).
+fn probe_main(env: &mut VEnv, args: Vec<Field>) -> Pin<Box<dyn Future<Output = BResult> + '_>> {
+    Box::pin(async move {
+        let m = args.first().map(|f| f.value.clone()).unwrap_or_default();
+        record(env, m);
+        BResult::new(env.exit_status)
     })
 }
 
@@ -110,6 +131,7 @@ pub fn run_sim(r: &Rendered) -> Obs {
     cfg.step_limit = 200_000;
     cfg.setup = Some(Box::new(|env, _state| {
         env.builtins.insert("mk", Builtin::new(Type::Mandatory, mk_main));
+        env.builtins.insert("probe", Builtin::new(Type::Mandatory, probe_main));
         env.builtins.insert("tick", Builtin::new(Type::Mandatory, tick_main));
     }));
     let res = run_shell(cfg);
